@@ -204,17 +204,20 @@ def check(prog, rep):
         signatures[idx] = sorted(describe(v).replace(rec, "<REC>") for _, v in results)
     rep.analysed["cif_copies"] = len(copies)
     rep.analysed["cif_paths"] = n_paths
-    base = signatures.get(0)
+    base_idx = min(signatures) if signatures else None
+    base = signatures.get(base_idx)
+    for idx in range(len(copies)):
+        if idx not in signatures:
+            r2.bad(f"sibling|copy{idx}", f"copy {idx} has no fixed layout and cannot equal its siblings",
+                   f"pdb2pqr/cif.py:{copies[idx][0].lineno} (atom_site)")
     for idx, sig in signatures.items():
-        if idx == 0:
+        if idx == base_idx:
             continue
         # HETATM needs no pad after the 6-character record name; compare field layouts only
-        r2.add(f"sibling|copy0~copy{idx}", _strip_rec(sig) == _strip_rec(base),
-               f"copy {idx} has {len(sig)} path layouts; {'identical to' if _strip_rec(sig) == _strip_rec(base) else 'DIFFERENT from'} copy 0",
+        r2.add(f"sibling|copy{base_idx}~copy{idx}", _strip_rec(sig) == _strip_rec(base),
+               f"copy {idx} has {len(sig)} path layouts; {'identical to' if _strip_rec(sig) == _strip_rec(base) else 'DIFFERENT from'} copy {base_idx}",
                f"pdb2pqr/cif.py:{copies[idx][0].lineno} (atom_site)")
-    if len(signatures) < 2 and len(copies) >= 2:
-        r2.bad("sibling|incomparable", "copies could not be compared (layouts not fixed)")
-    elif len(copies) == 1:
+    if len(copies) == 1:
         r2.ok("sibling|single-assembler", "one assembler serves all record kinds")
 
     rule_flag(prog, rep)
